@@ -27,6 +27,7 @@ type parseContext struct {
 	caseInsensitive   map[lexer.TokenType]bool
 	apply             []*contextFieldSet
 	allowTrailing     bool
+	firstMatch        lexer.RawCursor // Raw index of the first token consumed since the enclosing capture began, -1 if none yet.
 }
 
 func newParseContext(lex *lexer.PeekingLexer, lookahead int, caseInsensitive map[lexer.TokenType]bool) parseContext {
@@ -34,6 +35,7 @@ func newParseContext(lex *lexer.PeekingLexer, lookahead int, caseInsensitive map
 		PeekingLexer:    *lex,
 		caseInsensitive: caseInsensitive,
 		lookahead:       lookahead,
+		firstMatch:      -1,
 	}
 }
 
@@ -71,9 +73,19 @@ func (p *parseContext) Apply(from int) error {
 func (p *parseContext) Accept(branch *parseContext) {
 	p.apply = append(p.apply, branch.apply...)
 	p.PeekingLexer = branch.PeekingLexer
+	if p.firstMatch < 0 {
+		p.firstMatch = branch.firstMatch
+	}
 	if branch.deepestErrorDepth >= p.deepestErrorDepth {
 		p.deepestErrorDepth = branch.deepestErrorDepth
 		p.deepestError = branch.deepestError
+	}
+}
+
+// matched records that the token at raw index cursor is being consumed.
+func (p *parseContext) matched(cursor lexer.RawCursor) {
+	if p.firstMatch < 0 {
+		p.firstMatch = cursor
 	}
 }
 
